@@ -78,6 +78,9 @@ pub struct Swarm {
     pub small: bool,
 }
 
+/// radices for which near-tie integer inputs are generated (see DESIGN §7.4 for why not all)
+pub const TIE_RADICES: [u8; 5] = [2, 4, 16, 3, 5];
+
 // generator kinds, index into Swarm.weights
 const K_WINT: usize = 0;
 const K_PINT: usize = 1;
@@ -769,6 +772,65 @@ fn gen_moderate_bits(r: &mut Rng, ty: FloatTy, sw: &Swarm) -> u64 {
     }
 }
 
+/// An integer exactly on / one below / one above the midpoint of two adjacent floats, written in
+/// `radix`: hundreds of digits that only the moderate and slow paths of the radix parser can decide.
+#[allow(dead_code)]
+fn gen_pfloat_r_tie(r: &mut Rng, ty: FloatTy, radix: u8, sw: &Swarm) -> Option<(Vec<u8>, u64)> {
+    // a float >= 2, so that the midpoint (2m+1) * 2^(e2-1) is an integer
+    let mb = ty.mant_bits() as i64;
+    let max_e2 = if sw.small {
+        8
+    } else {
+        (max_exp_field(ty) as i64 - 2) - bias(ty) - mb
+    };
+    let e2 = 1 + r.below(max_e2.max(1) as u64) as i64;
+    let field = (e2 + mb + bias(ty)) as u64;
+    let mant = match r.below(4) {
+        0 => 0,
+        1 => r.below(8),
+        2 => ((1u64 << ty.mant_bits()) - 1) - r.below(8),
+        _ => r.next_u64(),
+    };
+    let x = float_from_parts(ty, false, field, mant);
+    if !ty.is_finite(x) {
+        return None;
+    }
+    let (m, e2) = ty.decompose(x);
+    if e2 < 1 {
+        return None;
+    }
+    let mut n = BigNat::from_u128(2 * m as u128 + 1);
+    n.mul_pow(2, (e2 - 1) as u32);
+    let up = x + 1;
+    let expect = match r.below(3) {
+        0 => {
+            if m % 2 == 0 {
+                x
+            } else {
+                up
+            }
+        },
+        1 => {
+            n.add_small(1);
+            up
+        },
+        _ => {
+            n.sub_one();
+            x
+        },
+    };
+    let neg = r.chance(1, 2);
+    let mut t = Vec::new();
+    if neg {
+        t.push(b'-');
+    }
+    t.extend_from_slice(&n.to_radix(radix as u32));
+    if r.chance(1, 3) {
+        t.make_ascii_lowercase();
+    }
+    Some((t, expect | ((neg as u64) << (ty.total_bits() - 1))))
+}
+
 #[allow(dead_code)]
 fn gen_pfloat_r(r: &mut Rng, ty: FloatTy, radix: u8) -> Option<(Vec<u8>, u64)> {
     let rx = radix as u128;
@@ -1003,7 +1065,12 @@ pub fn gen_op(r: &mut Rng, sw: &Swarm) -> Op {
                 }
                 let radix = *r.pick(&sw.hot_float_radices);
                 let ty = fty(r);
-                if let Some((text, expect)) = gen_pfloat_r(r, ty, radix) {
+                let made = if TIE_RADICES.contains(&radix) && r.chance(1, 2) {
+                    gen_pfloat_r_tie(r, ty, radix, sw)
+                } else {
+                    gen_pfloat_r(r, ty, radix)
+                };
+                if let Some((text, expect)) = made {
                     return Op::PFloatR {
                         ty,
                         radix,
